@@ -4,6 +4,8 @@ package main
 // the shard-level checks (C01..C10). Everything derives from one PRNG.
 
 import (
+	"os"
+	"strconv"
 	"math"
 	"math/rand/v2"
 	"sort"
@@ -18,6 +20,7 @@ type genState struct {
 	profile string
 	schema  schemaSpec
 	pool    []uuid.UUID
+	bigAt   int  // step of the oversized rejected insert request (profile c07), 0 = none
 	tagOK   bool // histories that may contain the tagged known-finding request shape (F14)
 	sent    map[uuid.UUID]Val // approximate bookkeeping of what is stored (only to pick interesting values)
 	maxSize int
@@ -56,6 +59,9 @@ func newGen(profile string, seed uint64, idx int) *genState {
 	}
 	g.words = vocab
 	g.tagOK = idx%3 == 0
+	if profile == "c07" && idx%16 == 5 {
+		g.bigAt = 2 + r.IntN(3)
+	}
 	g.large = large
 	g.schema = g.pickSchema(idx)
 	for _, ix := range g.schema {
@@ -167,10 +173,12 @@ func (g *genState) schemaC03(idx int) schemaSpec {
 	case 2:
 		q = quantSpec{kind: 1, thr: []float32{0.5, 1.5, -0.5, 0}[r.IntN(4)], metric: []string{"hamming", "jaccard"}[r.IntN(2)]}
 	case 3:
-		q = quantSpec{kind: 2, trigger: []int{0, 1, 3, 5, 6, 7, 8, 9, 10, 12}[r.IntN(10)], metric: []string{"hamming", "jaccard"}[r.IntN(2)]}
+		// thresholds around the size of the first one or two insert batches: some points are written before the
+		// training, the training happens inside the history, more points follow
+		q = quantSpec{kind: 2, trigger: []int{0, 1, 3, 4, 5, 5, 6, 6, 7, 9}[r.IntN(10)], metric: []string{"hamming", "jaccard"}[r.IntN(2)]}
 	case 4:
 		dim = []int{2, 4, 8}[r.IntN(3)]
-		q = quantSpec{kind: 3, ncent: 2 + r.IntN(3), nsub: 2, trigger: 4 + r.IntN(8)}
+		q = quantSpec{kind: 3, ncent: 2 + r.IntN(3), nsub: 2, trigger: 4 + r.IntN(5)}
 	}
 	g.dim = dim
 	g.vecMetric = m
@@ -571,8 +579,74 @@ func (g *genState) chainBatch(step int) (batchSpec, bool) {
 	return batchSpec{}, false
 }
 
+// quantScript: for graph histories with a trainable quantiser (learned binary, product) the first three batches are
+// scripted so that the training provably happens INSIDE the history: (0) a few points with vectors, fewer than the
+// trigger threshold; (1) enough further points to cross it; (2) an update that removes the vector field of one point
+// of batch 0 and a delete of another point of batch 0. From then on the history is random again.
+func (g *genState) quantScript(step int) (batchSpec, bool) {
+	if g.profile != "c03" || len(g.schema) == 0 {
+		return batchSpec{}, false
+	}
+	ix := g.schema[0]
+	t := ix.q.trigger
+	if g.profile != "c03" || ix.kind != ixVamana || ix.q.kind < 2 || t < 3 || g.large || g.chain > 0 || len(g.pool) < t+4 {
+		return batchSpec{}, false
+	}
+	top := strings.SplitN(ix.path, ".", 2)[0]
+	mk := func(id uuid.UUID) pointSpec {
+		d := Val{K: kMap, M: []KV{{"i", vInt(int64(g.r.IntN(5)))}, {"tags", vStrs(g.pick(tagPool))}}}
+		setPath(&d, ix.path, vVec(g.genVec(ix.dim)))
+		sortDoc(&d)
+		return pointSpec{id: id, doc: d}
+	}
+	switch step {
+	case 0:
+		b := batchSpec{kind: 0}
+		for i := 0; i < t-1 && i < 3; i++ {
+			b.points = append(b.points, mk(g.pool[i]))
+		}
+		return b, true
+	case 1:
+		b := batchSpec{kind: 0}
+		n0 := min(t-1, 3)
+		for i := n0; i < t+2 && i < len(g.pool); i++ {
+			b.points = append(b.points, mk(g.pool[i]))
+		}
+		return b, true
+	case 2:
+		return batchSpec{kind: 1, points: []pointSpec{{id: g.pool[0], doc: Val{K: kMap, M: []KV{{top, vStr("_delete")}}}}}}, true
+	case 3:
+		return batchSpec{kind: 2, ids: []uuid.UUID{g.pool[1]}}, true
+	}
+	return batchSpec{}, false
+}
+
 func (g *genState) genBatch(step int) batchSpec {
 	r := g.r
+	if b, ok := g.quantScript(step); ok {
+		return b
+	}
+	if g.bigAt > 0 && step == g.bigAt {
+		// one insert request larger than a plausible internal slice size (1100..1300 points with empty documents in
+		// the quick tier, 5000..6700 in the thorough tier)
+		// whose LAST point carries an id that is already stored: rejected inside the transaction, nothing may stay
+		if live := g.liveIds(); len(live) > 0 {
+			n := 1100 + r.IntN(200) // quick tier; the thorough tier uses 5000..7000 (VERIF_BIGN, set by runC07)
+			if v, err := strconv.Atoi(os.Getenv("VERIF_BIGN")); err == nil && v > 0 {
+				n = v + r.IntN(v/3+1)
+			}
+			b := batchSpec{kind: 0}
+			for i := 0; i < n; i++ {
+				var u uuid.UUID
+				for j := range u {
+					u[j] = byte(r.IntN(256))
+				}
+				b.points = append(b.points, pointSpec{id: u, doc: Val{K: kMap}})
+			}
+			b.points = append(b.points, pointSpec{id: live[r.IntN(len(live))], doc: Val{K: kMap}})
+			return b
+		}
+	}
 	if g.chain > 0 {
 		if b, ok := g.chainBatch(step); ok {
 			return b
@@ -635,6 +709,16 @@ func (g *genState) genBatch(step int) batchSpec {
 		if r.IntN(20) == 0 {
 			b.points = nil
 		}
+		// graph profiles with a trained / trainable quantiser: remove the vector field of a stored point now and
+		// then (a point written before the training keeps entries of both forms in the store)
+		if g.profile == "c03" && g.schema[0].q.kind >= 2 && step >= 3 && r.IntN(3) == 0 && len(live) > 0 {
+			id := live[r.IntN(len(live))]
+			if !used[id] {
+				used[id] = true
+				top := strings.SplitN(g.schema[0].path, ".", 2)[0]
+				b.points = append(b.points, pointSpec{id: id, doc: Val{K: kMap, M: []KV{{top, vStr("_delete")}}}})
+			}
+		}
 		// graph profiles: one request that removes and re-adds (or sets and then removes) the vector field of
 		// the same point. The second shape is the known finding F14 (DESIGN 9.3): the step is tagged.
 		if g.profile == "c03" && r.IntN(5) == 0 && len(live) > 0 {
@@ -675,8 +759,12 @@ func (g *genState) genBatch(step int) batchSpec {
 				b.ids = append(b.ids, id)
 			}
 		}
-		if r.IntN(10) == 0 && len(live) > 2 { // a whole neighbourhood at once
-			for _, id := range live[:len(live)-1] {
+		if r.IntN(10) == 0 && len(live) > 2 { // a whole neighbourhood at once; every other time the whole collection
+			upto := len(live) - 1
+			if r.IntN(2) == 0 {
+				upto = len(live) // nothing is left: index structures with no entries (a graph entry node without edges)
+			}
+			for _, id := range live[:upto] {
 				if !seen[id] {
 					seen[id] = true
 					b.ids = append(b.ids, id)
